@@ -32,7 +32,7 @@ def main():
             for i in range(1, 21):
                 p = "C%02d" % i
                 env = dict(os.environ, VERIF_REPO=tmp, VERIF_EVIDENCE_DIR=os.path.join(tmp, "evidence"), VERIF_REPLAY_DIR=os.path.join(tmp, "replays"))
-                pr = subprocess.run([os.path.join(ROOT, "check"), p, "--tier", "quick"], capture_output=True, text=True, env=env, cwd=ROOT)
+                pr = subprocess.run([os.path.join(ROOT, "check"), p, "--tier", "quick"] + (["--budget", os.environ["VERIF_FA_BUDGET"]] if os.environ.get("VERIF_FA_BUDGET") else []), capture_output=True, text=True, env=env, cwd=ROOT)
                 viol = [l.strip()[:300] for l in pr.stdout.splitlines() if l.startswith("  violated:")]
                 herr = [l.strip()[:300] for l in pr.stderr.splitlines() if l.startswith("HARNESS-ERROR")]
                 res[d][p] = {"rc": pr.returncode, "violations": viol[:3], "harness_errors": herr[:3]}
